@@ -18,6 +18,7 @@ CHUNK = 20
 
 LEN_BOUNDARY = [0, 1, 2, 254, 255, 256, 257, 509, 510, 511, 764, 765, 766, 1020, 65535]
 PATS = ["ramp", "55", "3c", "ff", "00", "m00.p0", "m00.p1", "m00.p2", "m01.p0", "m01.p1", "m01.p2", "mFF.p0", "mFF.p1", "mFF.p2"]
+TEXT_PATS = ["dos", "unix", "mac", "mixeol"]
 ADDRS = [0, 1, 0xFF, 0x100, 0x0E00, 0x1234, 0x3C55, 0x553C, 0x7FFF, 0x8000, 0xFF00, 0xFFFF]
 NAMES = ["", "A", "AB", "PROG", "z9", "Hello", "ABCDEFG", "ABCDEFGH", "ABCDEFGHI", "abcdefghijkl", "A-B", "9", "MixedCas",
          "GAME.V2", "A.B", "V.1.2", "END.", ".CFG", "A,B", "X;Y", "#1", "$FF", "'Q'", "[Z]", "A+B", "0", "007"]        # any printable character may be part of a name
@@ -46,6 +47,11 @@ def cases(tier, seed):
     for nm in NAMES:
         for ft, dt in ((0, 0), (0, 0xFF), (1, 0), (1, 0xFF), (2, 0), (2, 0xFF), (3, 0), (3, 0xFF)):
             yield {"k": "write", "files": [C.spec(nm, ftype=ft, dtype=dt, n=5)]}
+    # text content under every line-end convention: data bytes are data, whatever the file and data type say
+    for p in TEXT_PATS:
+        for ft, dt in ((0, 0), (0, 0xFF), (1, 0), (1, 0xFF), (2, 0), (2, 0xFF), (3, 0), (3, 0xFF)):
+            for n in (2, 31, 256, 300):
+                yield {"k": "write", "files": [C.spec("TEXT", ftype=ft, dtype=dt, n=n, pat=p)]}
     # files that carry a gap flag (as files listed from a tape with gaps do)
     for g in (0x00, 0xFF, 0x01):
         for n in (1, 255, 300):
